@@ -111,3 +111,7 @@ impl WritableDataCreator<PartiallySerializedWriteResult> for PartiallySerialized
         self.head_with_data.len() as u64 + self.data.as_ref().map_or(0, |v| v.len()) as u64
     }
 }
+
+#[cfg(any(kani, pearl_verif))]
+#[path = "/verif/kani/partially_serialized.rs"]
+mod verif_kani;
